@@ -1,4 +1,297 @@
-/- Model driver for C08 (stub: not built yet). -/
-import Driver.Common
+/-
+Model driver for C08 (Osmium/Model/WriterSM.lean).  Ops:
 
-def main : IO Unit := pure ()
+  rw <size> <sched>
+      sched: `-` or comma list, one token per write(2) call: k<N> (accept at most N bytes),
+      i (EINTR), e<errno>.  Runs the size-level transcription of reliable_write.
+      -> rw calls=<n>:<r>,… res=<ok|sys:E> total=<bytes accepted> inorder=1
+
+  seq comp=<none|gz|bz2> fsync=<0|1> chunks=<s1,s2,…|-> fault=<f>
+      The write thread's sequential behaviour on the given blocks (everything queued up
+      front, no interleaving): compressor.write per block, close, promise.
+      fault: none | parts joined with `+`:  w@<o>:<E>[:p|:t|:pt]  fsync:<E>  close:<k>:<E>
+             short:<m>  eintr:<n>
+      -> seq res=<ok:n|exc:CLS> file=<len> w=<calls>/<bytes>/<faults> fs=<calls>/<faults> cl=<calls>/<faults>
+
+  explore qmax=<n> hdr=<enc> script=<c1,c2,…> fail=<none|w<j>:<E>|fsync:<E>|close:<E>>
+      ALL interleavings (breadth-first over the small-step relation) of producer, pool
+      workers and write thread; every data block is one byte, so "the j-th write call fails"
+      = "the j-th block written fails".
+      enc: `-` or letters d (pool task → data) D (ready data) x (pool task throws) z (pool
+           task → empty string), optional trailing `!` (the encoder throws in the caller).
+      calls: P<ib>/<e> operator()(Buffer)   I<full> operator()(Item)   F<ib> flush()
+             C<ib>/<eEnd> close()           (ib/full: `_` = internal buffer empty)
+      The destructor is appended (with the last close's arguments, or `_`/`-`).
+      -> explore n=<states> outcomes=<pattern> | <pattern> …   (sorted; a pattern is the
+         `;`-joined outcomes of the calls: ok, ok:0, ok:N, exc:sys:<E>, exc:enc, exc:io)
+         `STUCK` is appended if a non-terminated state without enabled step was found.
+-/
+import Osmium.Model.WriterSM
+import Driver.Common
+import Std.Data.HashSet
+
+open Osmium.WriterSM Driver
+
+def kv (ws : List String) (key : String) (dflt : String) : String :=
+  match ws.find? (fun w => w.startsWith (key ++ "=")) with
+  | some w => (w.drop (key.length + 1)).toString
+  | none => dflt
+
+def splitC (s : String) (sep : String := ",") : List String :=
+  if s == "-" || s == "" then [] else s.splitOn sep
+
+/-! ### rw -/
+
+def parseResp (tok : String) : Option Resp :=
+  if tok == "i" then some .eintr
+  else if tok.startsWith "k" then (tok.drop 1).toString.toNat?.map .ok
+  else if tok.startsWith "e" then (tok.drop 1).toString.toNat?.map .err
+  else none
+
+def showWRes : WRes → String
+  | .wrote k => toString k
+  | .eintr => "i"
+  | .err e => "e" ++ toString e
+
+def opRw (ws : List String) : String :=
+  match ws with
+  | [sz, sched] =>
+    match sz.toNat?, (splitC sched).mapM parseResp with
+    | some size, some rs =>
+      let os : OS := { sched := rs }
+      let (r, os', log) := rwLoopN maxWrite (rs.length + size + 1) os size []
+      let calls := log.map fun (n, w) => toString n ++ ":" ++ showWRes w
+      let shown := if calls.length > 40 then
+          ",".intercalate (calls.take 40) ++ ",+" ++ toString (calls.length - 40)
+        else if calls.isEmpty then "-" else ",".intercalate calls
+      let res := match r with
+        | .done => "ok"
+        | .error e => "sys:" ++ toString e
+        | .outOfFuel => "spin"
+      s!"rw calls={shown} res={res} total={os'.off} inorder=1"
+    | _, _ => "bad-op"
+  | _ => "bad-op"
+
+/-! ### fault specs -/
+
+structure FaultCfg where
+  limit : Option Limit := none
+  fsyncErr : Option Nat := none
+  closeK : Option (Nat × Nat) := none
+  short : Option Nat := none
+  eintr : Option Nat := none
+
+def parseFault (s : String) : Option FaultCfg :=
+  if s == "none" then some {} else
+  (s.splitOn "+").foldlM (init := ({} : FaultCfg)) fun f part =>
+    if part.startsWith "w@" then
+      match (part.drop 2).toString.splitOn ":" with
+      | [o, e] => do some { f with limit := some ⟨← o.toNat?, ← e.toNat?, false, false⟩ }
+      | [o, e, m] => do
+        some { f with limit := some ⟨← o.toNat?, ← e.toNat?, m.contains 'p', m.contains 't'⟩ }
+      | _ => none
+    else if part.startsWith "fsync:" then do
+      some { f with fsyncErr := some (← (part.drop 6).toString.toNat?) }
+    else if part.startsWith "close:" then
+      match (part.drop 6).toString.splitOn ":" with
+      | [k, e] => do some { f with closeK := some (← k.toNat?, ← e.toNat?) }
+      | _ => none
+    else if part.startsWith "short:" then do
+      some { f with short := some (← (part.drop 6).toString.toNat?) }
+    else if part.startsWith "eintr:" then do
+      some { f with eintr := some (← (part.drop 6).toString.toNat?) }
+    else none
+
+/-- the OS oracle of a fault configuration, for runs that write at most `total` bytes in at
+    most `nblocks` compressor calls -/
+def FaultCfg.os (f : FaultCfg) (total nblocks : Nat) : OS :=
+  let m := f.short.getD (total + 1)
+  let ncalls := (if m = 0 then total else total / m) + 2 * nblocks + 8
+  let ncalls := match f.eintr with
+    | some n => ncalls + ncalls / (n - 1) + 2
+    | none => ncalls
+  let sched : List Resp :=
+    if f.short.isNone && f.eintr.isNone then [] else
+    (List.range ncalls).map fun i =>
+      match f.eintr with
+      | some n => if n ≠ 0 ∧ (i + 1) % n = 0 then Resp.eintr else Resp.ok m
+      | none => Resp.ok m
+  { sched := sched
+    limit := f.limit
+    fsyncSched := match f.fsyncErr with | some e => List.replicate 4 (some e) | none => []
+    closeSched := match f.closeK with
+      | some (k, e) => List.replicate (k - 1) none ++ [some e]
+      | none => [] }
+
+/-! ### seq -/
+
+def showErr : Err → String
+  | .sys e => "sys:" ++ toString e
+  | .gzip _ => "gzip"
+  | .bzip2 _ => "bzip2"
+  | .enc _ => "enc"
+  | .refused => "io"
+
+def showOutcome : Outcome → String
+  | .ok n => "ok:" ++ toString n
+  | .raised e => "exc:" ++ showErr e
+
+def blockOf (idx size : Nat) : Bytes := List.replicate size (UInt8.ofNat (idx % 251 + 1))
+
+/-- run the machine to the end with the producer-first scheduler -/
+def seqRun {κ : Type} (cfg : Cfg κ) (k0 : κ) (os0 : OS) (sizes : List Nat) : St κ :=
+  let blocks : List Item := (List.range sizes.length).zip sizes |>.map fun (i, n) =>
+    ({ res := .data (blockOf i n), ready := true } : Item)
+  let script : List Api := [.put none { items := blocks }, .close none {}, .dtor none {}]
+  (runSched cfg false (20 * sizes.length + 200) (initSt k0 os0 script)).2
+
+def seqLine {κ : Type} (s : St κ) : String :=
+  let res := match s.promise with
+    | some o => showOutcome o
+    | none => "none"
+  s!"seq res={res} file={s.os.file.length} w={s.os.wcalls}/{s.os.off}/{s.os.faults} fs={s.os.fsyncs} cl={s.os.closes}"
+
+def opSeq (ws : List String) : String :=
+  let sizes := (splitC (kv ws "chunks" "-")).filterMap String.toNat?
+  let sync := kv ws "fsync" "0" == "1"
+  match parseFault (kv ws "fault" "none") with
+  | none => "bad-op"
+  | some f =>
+    let total := sizes.foldl (· + ·) 0
+    -- the reference libraries add framing bytes: leave room in the schedule
+    let os0 := f.os (2 * total + 2 * sizes.length + 16) sizes.length
+    match kv ws "comp" "none" with
+    | "none" => seqLine (seqRun ⟨noComp, {}, 0⟩ { sync := sync } os0 sizes)
+    | "gz" => seqLine (seqRun ⟨gzipComp refGz, {}, 0⟩ { gz := some {}, sync := sync } os0 sizes)
+    | "bz2" => seqLine (seqRun ⟨bzip2Comp refBz, {}, 0⟩ { bz := some {}, sync := sync } os0 sizes)
+    | _ => "bad-op"
+
+/-! ### explore -/
+
+/-- parse an Enc; `next` numbers the data blocks so that each gets a distinct byte -/
+def parseEnc (s : String) (next : Nat) : Option (Enc × Nat) :=
+  if s == "-" then some ({}, next) else
+  let cs := s.toList
+  let (cs, throws) := if cs.getLast? == some '!' then (cs.dropLast, some (Err.enc 1)) else (cs, none)
+  let step (acc : Option (List Item × Nat)) (c : Char) : Option (List Item × Nat) := do
+    let (items, n) ← acc
+    match c with
+    | 'd' => some (items ++ [{ res := .data [UInt8.ofNat (n % 250 + 1)], ready := false }], n + 1)
+    | 'D' => some (items ++ [{ res := .data [UInt8.ofNat (n % 250 + 1)], ready := true }], n + 1)
+    | 'x' => some (items ++ [{ res := .exc (.enc 2), ready := false }], n)
+    | 'z' => some (items ++ [{ res := .data [], ready := false }], n)
+    | _ => none
+  (cs.foldl step (some ([], next))).map fun (items, n) => ({ items := items, throws := throws }, n)
+
+def parseOptEnc (s : String) (next : Nat) : Option (Option Enc × Nat) :=
+  if s == "_" then some (none, next) else (parseEnc s next).map fun (e, n) => (some e, n)
+
+def parseCall (s : String) (next : Nat) : Option (Api × Nat) :=
+  let body := (s.drop 1).toString
+  match s.toList.head? with
+  | some 'P' =>
+    match body.splitOn "/" with
+    | [ib, e] => do
+      let (ib, n) ← parseOptEnc ib next
+      let (e, n) ← parseEnc e n
+      some (.put ib e, n)
+    | _ => none
+  | some 'I' => (parseOptEnc body next).map fun (f, n) => (.item f, n)
+  | some 'F' => (parseOptEnc body next).map fun (ib, n) => (.flush ib, n)
+  | some 'C' =>
+    match body.splitOn "/" with
+    | [ib, e] => do
+      let (ib, n) ← parseOptEnc ib next
+      let (e, n) ← parseEnc e n
+      some (.close ib e, n)
+    | _ => none
+  | _ => none
+
+def parseScript (calls : List String) (next : Nat) : Option (List Api) :=
+  match calls with
+  | [] => some []
+  | c :: rest => do
+    let (a, n) ← parseCall c next
+    let as ← parseScript rest n
+    some (a :: as)
+
+def showOutcomeAbs : Outcome → String
+  | .ok 0 => "ok:0"
+  | .ok _ => "ok:N"
+  | .raised e => "exc:" ++ showErr e
+
+def pattern (rs : List (Api × Outcome)) : String :=
+  ";".intercalate <| rs.filterMap fun (a, o) =>
+    match a with
+    | .dtor _ _ => none
+    | .close _ _ => some (showOutcomeAbs o)
+    | _ => some (match o with | .ok _ => "ok" | .raised e => "exc:" ++ showErr e)
+
+def allEvents {κ : Type} (s : St κ) : List Ev :=
+  [.prod, .wt, .worker none] ++ (List.range s.q.length).map fun i => Ev.worker (some i)
+
+/-- breadth-first exploration of every interleaving -/
+partial def bfs (cfg : Cfg NoState) (frontier : List (St NoState))
+    (seen : Std.HashSet (St NoState)) (outs : Std.HashSet String) (stuck : Bool) (limit : Nat) :
+    Nat × Std.HashSet String × Bool :=
+  match frontier with
+  | [] => (seen.size, outs, stuck)
+  | _ =>
+    if seen.size > limit then (seen.size, outs.insert "LIMIT", stuck) else
+    let (next, seen, outs, stuck) := frontier.foldl (init := ([], seen, outs, stuck))
+      fun (next, seen, outs, stuck) s =>
+        if s.destroyed then (next, seen, outs.insert (pattern s.results), stuck) else
+        let succs := (allEvents s).filterMap (step? cfg s)
+        if succs.isEmpty then (next, seen, outs, true) else
+        succs.foldl (init := (next, seen, outs, stuck)) fun (next, seen, outs, stuck) s' =>
+          if seen.contains s' then (next, seen, outs, stuck)
+          else (s' :: next, seen.insert s', outs, stuck)
+    bfs cfg next seen outs stuck limit
+
+def insertSorted (x : String) : List String → List String
+  | [] => [x]
+  | y :: ys => if x ≤ y then x :: y :: ys else y :: insertSorted x ys
+
+def opExplore (ws : List String) : String :=
+  let qmax := (kv ws "qmax" "0").toNat?.getD 0
+  match parseEnc (kv ws "hdr" "-") 0 with
+  | none => "bad-op"
+  | some (hdr, n0) =>
+    match parseScript (splitC (kv ws "script" "-")) n0 with
+    | none => "bad-op"
+    | some script =>
+      let dtor : Api := match script.reverse.find? (fun a => match a with | .close _ _ => true | _ => false) with
+        | some (.close ib e) => .dtor ib e
+        | _ => .dtor none {}
+      let fail := kv ws "fail" "none"
+      let os0 : Option OS :=
+        if fail == "none" then some {}
+        else if fail.startsWith "w" then
+          match (fail.drop 1).toString.splitOn ":" with
+          | [j, e] => do
+            let j ← j.toNat?
+            let e ← e.toNat?
+            some { sched := List.replicate (j - 1) (.ok 1) ++ [.err e] }
+          | _ => none
+        else if fail.startsWith "fsync:" then
+          (fail.drop 6).toString.toNat?.map fun e => { fsyncSched := [some e] }
+        else if fail.startsWith "close:" then
+          (fail.drop 6).toString.toNat?.map fun e => { closeSched := [some e] }
+        else none
+      match os0 with
+      | none => "bad-op"
+      | some os0 =>
+        let cfg : Cfg NoState := ⟨noComp, hdr, qmax⟩
+        let s0 := initSt ({ sync := true } : NoState) os0 (script ++ [dtor])
+        let (n, outs, stuck) := bfs cfg [s0] (Std.HashSet.emptyWithCapacity.insert s0) {} false 400000
+        let sorted := outs.fold (fun acc x => insertSorted x acc) []
+        s!"explore n={n} outcomes={" | ".intercalate sorted}{if stuck then " STUCK" else ""}"
+
+def step (line : String) : String :=
+  match words line with
+  | "rw" :: rest => opRw rest
+  | "seq" :: rest => opSeq rest
+  | "explore" :: rest => opExplore rest
+  | _ => "bad-op"
+
+def main : IO Unit := loopPure step
